@@ -241,6 +241,20 @@ def run_case(case, ctx):
             ctx.fail(f"seed-ignored:{comp}", f"a {comp} run with a different seed is identical: the seed is not used", case)
         return {"nontrivial": comp != "zuko" and comp != "flowjax" or True, "labels": labels}
     labels += ["route:" + case["route"], "pre:" + case["pre"]]
+    if comp == "smc" and case["ns"] == "jax":
+        # the BlackJAX SMC variant cannot run here (package absent), but its constructor can be given a generator: the sampler must
+        # hold on to that very object (observed through the attribute every SMC sampler of the pinned tree resamples from)
+        Pb = rc.Problem(dict(case), flow_seed=case["seed"])
+        gb = np.random.default_rng(case["seed"])
+        try:
+            sb = Pb.aspire.init_sampler("blackjax_smc", rng=gb)
+        except ImportError:
+            sb = None
+        if sb is not None and hasattr(sb, "rng"):
+            labels.append("blackjax-constructor")
+            if sb.rng is not gb:
+                ctx.fail("generator-dropped:blackjax_smc", "the generator given to the BlackJAX SMC sampler's constructor is not the one the sampler holds "
+                                                           "(resampling would draw from another source)", case)
     rc.SHARED.clear()
     rc.SHARED_ON[0] = bool(case.get("shared_kwargs"))
     if case.get("shared_kwargs"):
